@@ -2,6 +2,7 @@ package gen
 
 import (
 	"fmt"
+	"regexp"
 	"strings"
 )
 
@@ -144,6 +145,7 @@ type XStyle struct {
 	Eq        int // white space around the '=' of attributes
 	ItemLang  int // 1: items of Seq / Bag arrays carry an xml:lang qualifier too
 	Container int // k>0: arrays are written in another of the three RDF containers (Seq -> Bag -> Alt -> Seq, k steps)
+	EndWS     int // white space before the '>' of end tags (ETag ::= '</' Name S? '>')
 }
 
 var WSMenu = []string{"\n   ", " ", "\n\n", "  \n ", "\t", "\r\n   ", strings.Repeat(" ", 37), strings.Repeat(" ", 130), strings.Repeat(" ", 600)}
@@ -158,6 +160,9 @@ func init() {
 		}
 	}
 }
+
+var endWSMenu = []string{"", " ", "\n", "\t  "}
+var endTagRe = regexp.MustCompile(`</([A-Za-z][A-Za-z0-9:._-]*)>`)
 
 var eqMenu = []string{"=", " = ", "= ", " =", "\n=\n"}
 
@@ -215,6 +220,7 @@ func ChooseXStyle(x Chooser, nprops int) XStyle {
 		Eq:        x.Choose("xmp.space-around-equals", len(eqMenu)),
 		ItemLang:  x.Choose("xmp.lang-qualifier-on-list-items", 2),
 		Container: x.Choose("xmp.other-rdf-container", 3),
+		EndWS:     x.Choose("xmp.space-inside-end-tags", len(endWSMenu)),
 	}
 	if nprops > 1 {
 		st.Swap = x.Choose("xmp.swap-neighbours", nprops)
@@ -353,6 +359,9 @@ func (rec *XRec) Serialize(st XStyle) []byte {
 	sb.WriteString("</rdf:RDF>" + ind + "</x:xmpmeta>")
 	if st.Junk == 1 {
 		sb.WriteString("\n<?xpacket end=\"w\"?>")
+	}
+	if st.EndWS > 0 { // values are escaped, so "</" only starts end tags
+		return endTagRe.ReplaceAll([]byte(sb.String()), []byte("</$1"+endWSMenu[st.EndWS]+">"))
 	}
 	return []byte(sb.String())
 }
